@@ -23,6 +23,10 @@ def parseAct (a : String) : Option Act :=
     match b with
     | [x] => pure (Act.add k (List.replicate n x))
     | _ => none
+  | ["m", k, v] => do
+    let k ← natsOfHex k
+    let v ← natsOfHex v
+    pure (Act.setFirst k v)
   | ["s", c] => c.toNat?.map Act.status
   | ["w", b, n] => do
     let b ← natsOfHex b
@@ -157,15 +161,30 @@ def expectedStatus : List Act → Nat
   | .write _ :: _ => 200
   | .flush :: _ => 200
   | .add _ _ :: r => expectedStatus r
+  | .setFirst _ _ :: r => expectedStatus r
 
-/-- the handler's header additions up to the point where the header is fixed. -/
-def headerAdds : List Act → List (Str × Str)
+/-- replace the value of the first pair with key `k` -/
+def setFirstPair (k v : Str) : List (Str × Str) → List (Str × Str)
   | [] => []
-  | .add k v :: r => (k, v) :: headerAdds r
-  | _ :: _ => []
+  | (k', v') :: r => if k' == k then (k', v) :: r else (k', v') :: setFirstPair k v r
+
+/-- all header operations of the script applied in order (the handler's map when it returns) -/
+def finalPairs (acc : List (Str × Str)) : List Act → List (Str × Str)
+  | [] => acc
+  | .add k v :: r => finalPairs (acc ++ [(k, v)]) r
+  | .setFirst k v :: r => finalPairs (setFirstPair k v acc) r
+  | _ :: r => finalPairs acc r
+
+def headerAddsFrom (acc : List (Str × Str)) : List Act → List (Str × Str)
+  | .add k v :: r => headerAddsFrom (acc ++ [(k, v)]) r
+  | .setFirst k v :: r => headerAddsFrom (setFirstPair k v acc) r
+  | _ => acc
+
+/-- the handler's header fields at the point where the header is fixed. -/
+def headerAdds (acts : List Act) : List (Str × Str) := headerAddsFrom [] acts
 
 def allAdds (acts : List Act) : List (Str × Str) :=
-  acts.filterMap fun a => match a with | .add k v => some (k, v) | _ => none
+  acts.filterMap fun a => match a with | .add k v => some (k, v) | .setFirst k v => some (k, v) | _ => none
 
 def pairLt (a b : Str × Str) : Bool := strLt a.1 b.1 || (a.1 == b.1 && strLt a.2 b.2)
 def insertPair (k : Str × Str) : List (Str × Str) → List (Str × Str)
@@ -258,7 +277,7 @@ def spec (isHead : Bool) (acts : List Act) (impl : String) : String :=
       let replaced (k : Str) : Bool := all.any fun (k2, _) =>
         sTrailerPrefix.isPrefixOf k2 && canon (k2.drop sTrailerPrefix.length) == k
       let missing := declared.any fun k => !replaced k &&
-        all.any (fun (k2, v) => k2 == k && sendable k v && !tfields.contains (lower k, v))
+        (finalPairs [] acts).any (fun (k2, v) => k2 == k && sendable k v && !tfields.contains (lower k, v))
       if !isHead && missing then "FAIL:trailer-missing" else
       "ok"
   | _ => "FAIL:unparsable"
